@@ -166,8 +166,9 @@ def direct1d(ctx, rng, idx):
     cfl = float(10 ** rng.uniform(-3, 3))
     if s.mname == "euler1d" and rng.random() < 0.15:
         s.field.data[1][:] = 0.0      # at rest
-    ctx.describe(cfl=cfl, **s.desc())
-    s.disc.calc_timestep(s.field, cfl)
+    foreign = bool(rng.random() < 0.2)
+    ctx.describe(cfl=cfl, field_carries_another_model_object=foreign, **s.desc())
+    s.disc.calc_timestep(gen.foreign_field(rng, s.model, s.mesh, s.field) if foreign else s.field, cfl)
     ctx.nontrivial(s.desc(), cfl)
 
 
@@ -180,8 +181,9 @@ def direct2d(ctx, rng, idx):
         sp.prim[1][int(rng.integers(2))] = 0.0                       # axis-aligned flow
     m, model, disc, f = sp.build()
     cfl = float(10 ** rng.uniform(-3, 3))
-    ctx.describe(cfl=cfl, **sp.desc())
-    disc.calc_timestep(f, cfl)
+    foreign = bool(rng.random() < 0.2)
+    ctx.describe(cfl=cfl, field_carries_another_model_object=foreign, **sp.desc())
+    disc.calc_timestep(gen.foreign_field(rng, model, m, f) if foreign else f, cfl)
     ctx.nontrivial(sp.desc(), cfl)
 
 
